@@ -78,6 +78,9 @@ def protocols : List Proto := [
   -- thread-safe reusable storage: the shared block and _ptr/_capacity
   { name := "reusable_storage_mtsafe block hand-over",
     pub := ⟨"reusable_storage_mtsafe", "dealloc", OpKind.store, 0⟩, obs := ⟨"reusable_storage_mtsafe", "alloc", OpKind.xchg, 0⟩ },
+  -- … given back by `alloc` itself when growing the block threw (/repo fix a532e23): the emptied `_ptr/_capacity` are handed to the next claimant
+  { name := "reusable_storage_mtsafe block hand-over after a failed growth",
+    pub := ⟨"reusable_storage_mtsafe", "alloc", OpKind.store, 0⟩, obs := ⟨"reusable_storage_mtsafe", "alloc", OpKind.xchg, 0⟩ },
   -- generator, synchronous access to an asynchronous body
   { name := "generator result via _block",
     pub := ⟨"generator::promise_type", "unblock_sync", OpKind.store, 0⟩, obs := ⟨"generator::promise_type", "next_sync", OpKind.wait, 0⟩ }
@@ -305,6 +308,9 @@ def otherSites : List (String × String × OpKind × String) := [
   ("sync_awaiter", "wait_sync", OpKind.wait, "flag"), ("sync_awaiter", "wakeup", OpKind.notify, "flag"),
   ("future_common", "initialized", OpKind.load, "_awaiter"), ("future_common", "pending", OpKind.load, "_awaiter"),
   ("future", "get_promise", OpKind.xchg, "_awaiter"),
+  -- `future_with_cb::operator<<` (/repo fix edcba93) takes its own registration out of the still private future (no promise exists
+  -- yet: the assert next to it demands that the slot holds `this`) before the future is re-created in place
+  ("future_with_cb", "operator<<", OpKind.xchg, "_awaiter"),
   ("promise", "~promise<T>", OpKind.load, "_owner"), ("promise", "claim", OpKind.xchg, "_owner"),
   ("async::co_awaiter", "await_ready", OpKind.load, "_awaiter"), ("async::co_awaiter", "await_suspend", OpKind.store, "_awaiter"),
   ("generator::promise_type", "unblock_sync", OpKind.notify, "_block"), ("generator::promise_type", "next_sync", OpKind.store, "_block"),
@@ -341,7 +347,7 @@ theorem c03_rmw_shapes :
     ∧ shapeOf Generated.atomicSites "mutex" "subscribe" = [(OpKind.cas, "_requests")]
     ∧ shapeOf Generated.atomicSites "mutex" "build_queue" = [(OpKind.xchg, "_requests")]
     ∧ shapeOf Generated.atomicSites "mutex" "unlock" = [(OpKind.cas, "_requests")]
-    ∧ shapeOf Generated.atomicSites "reusable_storage_mtsafe" "alloc" = [(OpKind.xchg, "_busy")]
+    ∧ shapeOf Generated.atomicSites "reusable_storage_mtsafe" "alloc" = [(OpKind.xchg, "_busy"), (OpKind.store, "_busy")]
     ∧ shapeOf Generated.atomicSites "reusable_storage_mtsafe" "dealloc" = [(OpKind.store, "_busy")] := by decide
 
 /-- non-vacuity: the current table resolves every protocol -/
